@@ -24,13 +24,18 @@ EXPLANATION = (
     "over its branch conditions with normal-form leaves, with the specification term MA[(S + MAIO) mod N], "
     "S = M' if M' < N else (M' + T') mod N, M' = (T2 + RNTABLE[(HSN xor T1 mod 64) + T3]) mod 2^NBIN, T' = T3 mod 2^NBIN, "
     "cyclic branch (FN + MAIO) mod N iff HSN == 0. Both RNTABLE copies are compared entry by entry with the reference "
-    "transcription (spec/hopping.json), the 2^NBIN mask must be the OR of n >> k for k = 0..6, the time decomposition is "
+    "transcription (spec/hopping.json); the 2^NBIN mask -- identified by role as what the formula applies with `&` -- is a pure "
+    "function of N and is constant-folded for every N of the finite domain 1..64 (Python: the constructor's own statements "
+    "through the whitelisted folder, C: the forward-substituted helper term) and compared with (1 << bits(N)) - 1, however "
+    "it is written (the OR-of-shifts reading is recorded as evidence only); the time decomposition is "
     "compared with TS 45.002 4.3.3 on both sides, the table index is bounded by intervals (HSN range established by the "
     "constructor's guard) and the frequency getters must pass their own frame number to resolve(). All inputs are covered "
     "because formulas, tables and guards are compared, not values.")
 ASSUMPTIONS = [
     "spec/hopping.json is a faithful transcription of TS 45.002 table 6.2.3 and of the algorithm of clause 6.2.3",
-    "OR of n >> k for k = 0..6 equals 2^NBIN - 1 for 1 <= n <= 127 (NBIN = number of bits of n); `x & (2^NBIN - 1)` is `x mod 2^NBIN`",
+    "NBIN is the number of bits needed to represent N (TS 45.002 6.2.3), so 2^NBIN - 1 == (1 << N.bit_length()) - 1; the mask is "
+    "decided on the property's domain N = 1..64 only (exhaustive fold of a data definition, no frame number or history involved); "
+    "`x & (2^NBIN - 1)` is `x mod 2^NBIN`",
     "equality of results for every (HSN, MAIO, N, FN) follows from the equality of the normal forms under the listed rewrites "
     "(commutativity/associativity, x & (2^k - 1) == x mod 2^k, mod absorption); nothing is enumerated",
     "firmware: hsn (uint8_t from L1CTL) is assumed to be in 0..63 (the property's domain) and struct gsm_time to satisfy "
@@ -109,19 +114,88 @@ def mask_shape(t, base):
     return shifts, extras
 
 
+def variables(t):
+    return {x for x in G.subterms(t) if x[0] == "v"}
+
+
 def to_spec_symbols(t, ren):
-    """rename leaves, then replace every OR-of-shifts-of-N by the mask symbol
-    and `x & mask` by `x mod 2^NBIN`; returns (term, list of mask terms seen)"""
+    """Rename leaves; then every operand of `&` that is a function of the
+    allocation size alone (however it is written) is a 2^NBIN mask candidate:
+    it is replaced by the mask symbol (its *value* is judged by R2) and
+    `x & mask` becomes `x mod 2^NBIN`.  Returns (term, mask terms seen)."""
     t = G.renorm(t, ren)
     masks = []
 
+    def is_mask(o):
+        vs = variables(o)
+        return o != PNM and bool(vs) and vs <= {N, HSN, MAIO} and not any(y[0] == "idx" for y in G.subterms(o))
+
     def leaf(x):
-        if x[0] == "|" and mask_shape(x, N) is not None:
-            if x not in masks:
-                masks.append(x)
-            return PNM
+        if x[0] == "&" and any(is_mask(o) for o in x[1:]):
+            ops = []
+            for o in x[1:]:
+                if is_mask(o):
+                    if o not in masks:
+                        masks.append(o)
+                    ops.append(PNM)
+                else:
+                    ops.append(o)
+            return G.renorm(("&",) + tuple(ops), leaf, band_pnm)
         return None
     return G.renorm(t, leaf, band_pnm), masks
+
+
+def eval_term(t, env):
+    """value of a closed integer term (constant folding of the normal form);
+    None when a leaf is unbound, an operator is outside plain non-negative
+    int arithmetic (where C and mathematics agree) or a value leaves it"""
+    k = t[0]
+    if k == "c":
+        return t[1]
+    if k == "v":
+        return env.get(t)
+    if k == "ite":
+        c = eval_term(t[1], env)
+        return None if c is None else eval_term(t[2] if c else t[3], env)
+    a = [eval_term(x, env) for x in t[1:] if isinstance(x, tuple)]
+    if any(x is None for x in a):
+        return None
+    v = None
+    if k == "+":
+        v = sum(a)
+    elif k == "*":
+        v = 1
+        for x in a:
+            v *= x
+    elif k in ("mod", "div") and a[0] >= 0 and a[1] > 0:
+        v = a[0] % a[1] if k == "mod" else a[0] // a[1]
+    elif k in ("&", "|", "^") and all(x >= 0 for x in a):
+        v = a[0]
+        for x in a[1:]:
+            v = v & x if k == "&" else v | x if k == "|" else v ^ x
+    elif k in ("<<", ">>") and a[0] >= 0 and 0 <= a[1] < 31:
+        v = a[0] << a[1] if k == "<<" else a[0] >> a[1]
+    elif k == "neg":
+        v = -a[0]
+    elif k == "red":
+        v = a[0] if a[0] < a[1] else a[0] - a[1]
+    elif k == "cmp" and t[1] in ("<", "=="):
+        v = int(a[0] < a[1]) if t[1] == "<" else int(a[0] == a[1])
+    elif k == "not":
+        v = int(not a[0])
+    elif k in ("and", "or"):
+        v = int(all(a)) if k == "and" else int(any(a))
+    if v is None or not (-(1 << 31) <= v < (1 << 31)):
+        return None
+    return v
+
+
+def nbin_mask(n):
+    """2^NBIN - 1 with NBIN = number of bits needed to represent N (TS 45.002 6.2.3)"""
+    return (1 << n.bit_length()) - 1
+
+
+DOMAIN_N = range(1, 65)
 
 
 ALLOWED = {"c", "v", "+", "mod", "^", "idx", "ite", "cmp", "not", "and", "or", "div", "none", "raise"}
@@ -209,15 +283,10 @@ class PySide:
                 raise AnalysisError("HoppingParams.__init__: parameter `%s` (%s) is stored in %d attributes; unclassifiable" % (
                     par, role, len(keys)))
             self.attr[role] = keys[0]
-        lenma = ("call", "len", V(ps[2]))
-        keys = [k for k, v in self.init_env.items() if k.startswith("self.") and v[0] == "|" and
-                any(y == lenma for y in G.subterms(v))]
-        if len(keys) != 1:
-            raise AnalysisError("HoppingParams.__init__: %d attributes hold an OR over len(%s); the 2^NBIN mask is unclassifiable" % (
-                len(keys), ps[2]))
-        self.attr["pnm"] = keys[0]
-        # single writer of the four attributes over the whole toolkit
-        names = [self.attr[r].split(".", 1)[1] for r in ("hsn", "maio", "ma", "pnm")]
+
+    def _writers(self):
+        # single writer of the hopping attributes over the whole toolkit
+        names = [self.attr[r].split(".", 1)[1] for r in ("hsn", "maio", "ma", "pnm") if self.attr.get(r)]
         for m in self.repo.tk_modules():
             self.L.unit(m.rel)
             for attr in names:
@@ -240,10 +309,18 @@ class PySide:
         self.raw = sym.result(sym.run(fd))
         A = self.attr
         ma_par = self.init_env[A["ma"]]
-        # the mask attribute, written over len(self.<ma>)
-        pnm = G.renorm(self.init_env[A["pnm"]],
-                       lambda t: ("call", "len", V(A["ma"])) if t == ("call", "len", ma_par) else None)
-        self.pnm_raw = pnm
+        # the mask attribute, by role: an attribute the constructor stores (other than hsn/maio/ma) that
+        # resolve() combines with `&` -- however its value is written
+        others = {k for k in self.init_env if k.startswith("self.") and k not in (A["hsn"], A["maio"], A["ma"])}
+        used = sorted({o[1] for x in G.subterms(self.raw) if x[0] == "&" for o in x[1:] if o[0] == "v" and o[1] in others})
+        if len(used) > 1:
+            raise AnalysisError("HoppingParams.resolve combines %d constructor attributes with `&` (%s); the 2^NBIN mask is "
+                                "unclassifiable" % (len(used), used))
+        A["pnm"] = used[0] if used else None
+        self.pnm_init = None
+        if used:
+            # its defining term over N (evidence and dependency check only)
+            self.pnm_init = G.renorm(self.init_env[used[0]], lambda t: N if t == ("call", "len", ma_par) else None)
         fnp = V(self.fn_param)
         # the random-number table: the class-level list that resolve() indexes
         tabs = sorted({x[1][1] for x in G.subterms(self.raw) if x[0] == "idx" and x[1][0] == "v" and x[1][1].startswith("self.")
@@ -255,11 +332,12 @@ class PySide:
         def ren(t):
             if t == ("call", "len", V(A["ma"])):
                 return N
-            if t == V(A["pnm"]):
-                return G.renorm(pnm, ren)
+            if A["pnm"] and t == V(A["pnm"]):
+                return PNM
             return {V(A["hsn"]): HSN, V(A["maio"]): MAIO, V(A["ma"]): MA, fnp: FN, V(tabs[0]): RN}.get(t)
         self.ren = ren
-        self.term, self.masks = to_spec_symbols(self.raw, ren)
+        self.term, self.inline_masks = to_spec_symbols(self.raw, ren)
+        self._writers()
         for m in self.repo.tk_modules():
             for node, k in attr_accesses(m.tree, self.table_attr):
                 if k != "load":
@@ -298,13 +376,10 @@ class CSide:
              V(hsn): HSN, V(maio): MAIO, V(n): N, V(tbl): MA, self.table: RN}
         self.ren = lambda x: m.get(x)
         self.term, self.masks = to_spec_symbols(self.raw, self.ren)
-        # the function holding the `|` operators of the mask (for reporting)
-        self.mask_fn = self.HOP
-        for name, fd in tu.functions.items():
-            if any(kind(c) == "CompoundStmt" for c in kids(fd)) and \
-                    any(kind(x) == "BinaryOperator" and x.get("opcode") == "|" for x in walk(fd)):
-                if name == self.HOP or calls_to(tu.body(f), name):
-                    self.mask_fn = name
+        # the helper computing the mask (for reporting): the one value-only callee of the generator, if any
+        callees = [name for name, fd in tu.functions.items() if name != self.HOP and
+                   any(kind(c) == "CompoundStmt" for c in kids(fd)) and calls_to(tu.body(f), name)]
+        self.mask_fn = callees[0] if len(callees) == 1 else self.HOP
         L.fn(F_RFCH, self.mask_fn)
 
 
@@ -359,26 +434,74 @@ def r1_tables(L, repo, py, cs, spec):
     return ptab, init, ext
 
 
-def r2_mask(L, py, cs):
+def mask_verdict(L, file, func, what, values, line, evidence):
+    """one obligation: the folded mask equals 2^NBIN - 1 for every N of the domain"""
+    bad = [(n, nbin_mask(n), v) for n, v in values if v != nbin_mask(n)]
+    found = "equal for all %d values of N" % len(values) if not bad else "differs for %d of %d values of N: %s" % (
+        len(bad), len(values), ", ".join("N = %d (expected %d, found %d)" % b for b in bad[:6]) + (" ..." if len(bad) > 6 else ""))
+    if evidence:
+        found += " [%s]" % evidence
+    L.ob("C07.R2", file, func, "2^NBIN mask (%s) equals 2^NBIN - 1 = (1 << bits(N)) - 1 for every N in 1..64" % what,
+         "equal for all 64 values of N", found, not bad and len(values) == 64, line)
+    L.floor("C07.R2", "mask values folded for %s" % func, len(values), 64)
+
+
+def structure(t):
+    """evidence only: the OR-of-shifts reading of a mask term, when it has that shape"""
+    sh = mask_shape(t, N) if t is not None else None
+    if sh is None or t[0] != "|":
+        return "written as %s" % G.show(t)[:120] if t is not None else ""
+    return "OR of N >> k for k in %s%s" % (sorted(sh[0]), "" if not sh[1] else " and other operands %s" % [G.show(x) for x in sh[1]])
+
+
+def r2_mask(L, repo, py, cs):
+    nmasks = 0
+    # Python: the mask attribute is folded through the constructor itself for every N of the domain
+    if py.attr.get("pnm"):
+        nmasks += 1
+        hp, mp_, ap = py.init_params
+        vals = []
+        for n in DOMAIN_N:
+            ev = Ev(repo, py.mod, env={hp: 1, mp_: 0, ap: [(0, 0)] * n}, self_cls=py.ci)
+            try:
+                r = ev.run_block(py.init.body)
+            except Raised as e:
+                raise AnalysisError("HoppingParams.__init__ raises %s for a mobile allocation of %d channels; the mask cannot be folded" % (
+                    e.cls, n))
+            except Unknown as e:
+                raise AnalysisError("HoppingParams.__init__ cannot be folded for N = %d (%s); the 2^NBIN mask is unclassifiable" % (n, e))
+            v = ev.env.get(py.attr["pnm"])
+            if isinstance(v, bool) or not isinstance(v, int):
+                raise AnalysisError("HoppingParams.__init__: %s does not fold to an integer for N = %d" % (py.attr["pnm"], n))
+            vals.append((n, v))
+        mask_verdict(L, F_GSM, "HoppingParams.__init__", "the attribute resolve() applies with `&`", vals, py.init.lineno,
+                     structure(py.pnm_init))
+        ma_par = py.init_env[py.attr["ma"]]
+        pn = py.init_env[py.attr["pnm"]]
+        deps = sorted(x[1] for x in variables(pn) if x != ma_par)
+        L.ob("C07.R2", F_GSM, "HoppingParams.__init__",
+             "the mask is a function of the length of the list stored as the mobile allocation only",
+             [], deps, not deps and any(x == ("call", "len", ma_par) for x in G.subterms(pn)), py.init.lineno)
     for (file, func, masks, line, what) in (
-            (F_GSM, "HoppingParams.__init__", py.masks, py.init.lineno, "self._pnm (over len(self.ma))"),
-            (F_RFCH, cs.mask_fn, cs.masks, cs.tu.line(cs.tu.functions[cs.mask_fn]), "pow_nbin_mask(n)")):
-        L.floor("C07.R2", "2^NBIN mask terms in %s" % func, len(masks), 1)
-        L.require("C07.R2", file, func, "one 2^NBIN mask (%s) is used by the hopping formula" % what, 1, len(masks), line=line)
+            (F_GSM, "HoppingParams.resolve", py.inline_masks, py.resolve.lineno, "expression applied with `&` in resolve()"),
+            (F_RFCH, cs.mask_fn, cs.masks, cs.tu.line(cs.tu.functions[cs.mask_fn]), "value rfch_hop_seq_gen applies with `&`")):
         for mterm in masks:
-            shifts, extras = mask_shape(mterm, N)
-            for k in SHIFTS:
-                L.ob("C07.R2", file, func, "2^NBIN mask contains `N >> %d`" % k, "OR of N >> k for k = 0..6",
-                     sorted(shifts), k in shifts, line)
-            L.ob("C07.R2", file, func, "2^NBIN mask has no operand other than right shifts of N", [],
-                 [G.show(x) for x in extras], not extras, line)
-    # Python: the mask is computed from the list that is stored as self.ma
-    ma_par = py.init_env[py.attr["ma"]]
-    pn = py.init_env[py.attr["pnm"]]
-    L.ob("C07.R2", F_GSM, "HoppingParams.__init__", "the mask is computed from the length of the list stored as the mobile allocation",
-         "shifts of len(<the parameter stored as the mobile allocation>)", G.show(pn)[:200],
-         ma_par[0] == "v" and any(x == ("call", "len", ma_par) for x in G.subterms(pn)) and
-         not any(x[0] == "v" and x != ma_par for x in G.subterms(pn)), py.init.lineno)
+            nmasks += 1
+            deps = sorted(x[1] for x in variables(mterm) if x != N)
+            L.ob("C07.R2", file, func, "the mask (%s) is a function of N only" % what, [], deps, not deps, line)
+            vals = []
+            for n in DOMAIN_N:
+                v = eval_term(mterm, {N: n, HSN: 1, MAIO: 0})
+                if v is None:
+                    raise AnalysisError("%s: the 2^NBIN mask `%s` cannot be folded for N = %d; unclassifiable" % (
+                        func, G.show(mterm)[:120], n))
+                vals.append((n, v))
+            mask_verdict(L, file, func, what, vals, line, structure(mterm))
+    L.extra["mask_reference"] = {str(n): nbin_mask(n) for n in DOMAIN_N}
+    if len(cs.masks) != 1:
+        L.require("C07.R2", F_RFCH, cs.HOP, "one 2^NBIN mask is used by the firmware's hopping formula", 1, len(cs.masks),
+                  line=cs.tu.line(cs.f))
+    L.floor("C07.R2", "2^NBIN masks (Python + C)", nmasks, 2)
 
 
 def r3_formula(L, py, cs):
@@ -521,7 +644,7 @@ def run(L, tier):
     py = PySide(L, repo)
     cs = CSide(L)
     ptab, ctab, cext = r1_tables(L, repo, py, cs, spec)
-    r2_mask(L, py, cs)
+    r2_mask(L, repo, py, cs)
     try:
         sp, sc = r3_formula(L, py, cs)
     except AnalysisError as e:
